@@ -100,17 +100,17 @@ CLAIMED = {
             'Theorem for every table of valid symbols; representation independence is structural in the model and decided by '
             'the oracle comparing all queries across the three representations.',
             'Aliases with parentheses / non-text aliases are outside this property.', 'DESIGN.md section 4 C14'),
-    'C05': ('Coq proof: over a table with valid keys, no operator word in a name and unambiguous names, whatever text parses to e, the default '
+    'C05': ('Coq proof: over a table Licensing() accepted (or any table with valid keys and unambiguous names) with no operator word in a name, whatever text parses to e, the default '
             'rendering of e (plain or readable) is tokenized and parsed back to e itself by the model of the whole pipeline '
             '(parse_render_parse), likewise every well-formed expression made of the licenses of e (simplify / dedup / combine results); '
             'the token sequence of the rendering parses back whatever strings / positions it carries; the rendered string is the '
             'concatenation of fixed operator / parenthesis texts and the template applied to each license; producer results rendered '
             'and re-parsed on the implementation, also over wrapped user objects',
             'Theorems for every text, every well-formed expression tree, every table without operator words and every template '
-            '(plain_table_round_trip, parse_render_parse, render_parse_roundtrip, parse_renderable, table_ok_from_conditions, bparse_wf, '
+            '(accepted_table_round_trip, accepted_names_unambiguous, mk_key_idem, plain_table_round_trip, parse_render_parse, render_parse_roundtrip, parse_renderable, table_ok_from_conditions, bparse_wf, '
             'bparse_kinds, kinds_to_or, render_is_items, resplit, render_words). The three conditions on the table are discharged for the '
             'example table; the round trip is also decided on the implementation by the oracle.',
-            'Four finite oracle facts about white space and lower-casing of the operator letters are premises (checked on the interpreter).',
+            'Finite oracle facts about white space and lower-casing (operator letters; white space is fixed by lower-casing, which never yields nothing) are premises (checked on the interpreter).',
             'DESIGN.md section 4 C05'),
     'C19': ('Coq proof (invariant over operation sequences: answers of any history equal those of the system that never caches a '
             'tokenizer; the store of expression objects is append-only; parse of an expression returns the same object) + random '
